@@ -174,10 +174,120 @@ def probe_histories(n, r):
     return reqs
 
 
+def full_disk_part(chk, tier, r):
+    """Write histories on a file system that fills up (a tmpfs of a few pages in a private mount namespace): a write that is
+    reported successful must have stored exactly the bytes given; one that could not be completed must be reported as failed."""
+    import base64
+    import subprocess
+    if subprocess.run(['unshare', '-m', 'true'], stdout=subprocess.DEVNULL, stderr=subprocess.DEVNULL).returncode != 0:
+        chk.inconclusive.append('unshare -m not available: full-disk histories skipped')
+        return
+    d = C.workdir('C02', 'fulldisk')
+    try:
+        for k in range(6 if tier == 'quick' else 60):
+            sub = '%s/fs%d' % (d, k)
+            os.makedirs(sub)
+            pages = r.choice([2, 3, 4, 8])
+            ops = []
+            for _ in range(r.randint(3, 7)):
+                kind = r.choice(['cert', 'cert', 'account', 'key'])
+                if kind == 'key':
+                    ops.append({'kind': 'key', 'key_type': r.choice(['ecdsa_p256', 'rsa2048'])})
+                else:
+                    ops.append({'kind': kind, 'len': r.choice([300, 3000, 5000, 9000, 20000, 50000]), 'seed': r.randint(1, 1 << 30)})
+            q = {'id': k, 'dir': sub, 'crt_name': 'f%d' % k, 'account_name': 'acc%d' % k, 'key_type_label': 'kt', 'ops': ops,
+                 'account_path': '%s/%s.account.bin' % (sub, base64.urlsafe_b64encode(('acc%d' % k).encode()).decode().rstrip('='))}
+            rc, recs, err = C.probe('storehist', [q], timeout=300,
+                                    prefix=['unshare', '-m', 'sh', '-c', 'mount -t tmpfs -o size=%dk tmpfs "$0" && exec "$@"' % (4 * pages), sub])
+            if rc == 64:
+                chk.inconclusive.append('storage probe unavailable: %s' % err)
+                return
+            if rc != 0 or not recs:
+                chk.inconclusive.append('full-disk probe failed rc=%s: %s' % (rc, err[-200:]))
+                continue
+            chk.evaluations += 1
+            for w in recs[0]['results']:
+                if w['write_ok']:
+                    chk.count('full_disk_writes_reported_ok')
+                    if not w['equal']:
+                        chk.violation('C02|full-disk|%s|reported-ok' % w['kind'],
+                                      'a %d-byte %s write on a %d KiB file system was reported successful, the file holds %d bytes (first difference at offset %d)' % (
+                                          w['written_len'], w['kind'], 4 * pages, w['found_len'], w['first_diff']), {'request': q, 'result': recs[0]})
+                else:
+                    chk.count('full_disk_writes_reported_failed')
+                    chk.distinct.add(('full-disk', w['kind'], 'refused'))
+    finally:
+        C.rmtree(d)
+
+
+def multi_account_case(case):
+    """Several accounts registering at the same time on different endpoints: every account file holds its own account."""
+    n = case['n']
+    plan = {'default': {'lifetimes_s': [LONG], 'chain_lens': [1], 'delay_ms': [0, case['delay']], 'seed': case['i'] + 3}}
+    key_types = ['ecdsa_p256', 'rsa2048', 'ecdsa_p384', 'ed25519']
+    accounts = [{'name': 'acct%d' % k, 'contacts': ['%s@example.org' % ('c%d' % k * (1 + 3 * k))], 'key_type': key_types[k % 4]} for k in range(n)]
+
+    def cfg(d, ca):
+        certs = [{'name': 'c%d' % k, 'identifiers': S.ids('ma%d-%d.example.org' % (case['i'], k)), 'account': 'acct%d' % k, 'endpoint': 'ca%d' % k} for k in range(n)]
+        return S.std_config(d, ca, certs, accounts=accounts, ca_names=['ca%d' % k for k in range(n)])
+
+    def stop(v):
+        ok_ = {p['cert'] for p in v.postops() if p['kv'].get('is_success') == 'true'}
+        return len(ok_) >= n
+    run = S.run_scenario('C02', 'ma%d' % case['i'], cfg, plan, stop, timeout=90, workers=case.get('workers'))
+    res = {'case': case, 'problems': [], 'files': 0}
+    try:
+        import base64
+        for a in accounts:
+            path = '%s/acc/%s.account.bin' % (run.dir, base64.urlsafe_b64encode(a['name'].encode()).decode().rstrip('='))
+            if not os.path.exists(path):
+                if not run.timed_out:
+                    res['problems'].append(('account-file', 'no account file for %s although every certificate was issued' % a['name']))
+                continue
+            fresh = run.dir + '/fresh-' + a['name']
+            os.makedirs(fresh, exist_ok=True)
+            rc, recs, err = C.probe('acctload', [{'id': a['name'], 'dir': run.dir + '/acc', 'account_name': a['name'], 'contacts': a['contacts'], 'key_type': a['key_type'].replace('_', '-'),
+                                                  'resave_dir': fresh}])
+            if rc == 64:
+                res['infra'] = 'account probe unavailable'
+                break
+            rec = ([x for x in recs if not x.get('begin')] or [None])[0]
+            res['files'] += 1
+            if rc != 0 or rec is None or not rec.get('ok'):
+                res['problems'].append(('account-file', 'the account file of %s cannot be loaded again: %s' % (a['name'], (rec or {}).get('err') or err[-200:])))
+                continue
+            ff = os.listdir(fresh)
+            if ff and os.path.getsize(fresh + '/' + ff[0]) != os.path.getsize(path):
+                res['problems'].append(('account-file', 'the account file of %s is %d bytes, the same account saved into an empty directory %d bytes' % (
+                    a['name'], os.path.getsize(path), os.path.getsize(fresh + '/' + ff[0]))))
+            dump = rec.get('loaded') or rec.get('account') or {}
+            if dump and dump.get('name') not in (None, a['name']):
+                res['problems'].append(('account-file', 'the file of account %s holds account %r' % (a['name'], dump.get('name'))))
+        if res['problems']:
+            res['replay_dir'] = run.dir
+        return res
+    finally:
+        if not res['problems']:
+            run.cleanup()
+
+
 def run(tier):
     C.build(('harness', 'b1'))
     chk = C.Check('C02', LEVEL, tier)
     r = C.rng('C02')
+    full_disk_part(chk, tier, r)
+    ma = [{'i': i, 'n': r.randint(2, 4), 'delay': r.choice([0, 5, 20]), 'workers': r.choice([None, 1, 4])} for i in range(6 if tier == 'quick' else 60)]
+    for res in C.parallel(ma, multi_account_case):
+        chk.evaluations += 1
+        chk.count('account_files_of_concurrent_registrations_checked', res['files'])
+        if res.get('infra'):
+            chk.inconclusive.append(res['infra'])
+        if res['files']:
+            chk.distinct.add(('multi-account', res['case']['n'], res['case']['delay'], res['case']['workers']))
+        for cls, what in res['problems'][:1]:
+            chk.violation('C02|concurrent-accounts|%s' % cls, what, res, res.get('replay_dir'))
+        if res.get('replay_dir'):
+            C.rmtree(res['replay_dir'])
     # (b) probe write histories
     d = C.workdir('C02', 'probe')
     n_probe = 200 if tier == 'quick' else 5000
@@ -264,7 +374,7 @@ def run(tier):
                 continue
             seen.add(cls)
             chk.violation('C02|history|%s' % cls, what, res, res.get('replay_dir'))
-    chk.rule = ('(a) renewal histories of 2-3 daemon runs on one storage tree: chain lengths 1..4 per issuance, key type and account '
+    chk.rule = ('write histories on a file system that fills up; several accounts registering at once on different endpoints; ' + '(a) renewal histories of 2-3 daemon runs on one storage tree: chain lengths 1..4 per issuance, key type and account '
                 'contacts/key changed between runs (key path without key type); (b) probe write histories of 2-6 writes with lengths '
                 'from {0,1,17,300,1200,1201,4096,65536,random}; distinct = histories with at least one compared issuance + (file class, '
                 'length direction) pairs written through the probe')
